@@ -36,6 +36,8 @@ PROOF_FAIL = (
     "possible truncation",
     "failed to show",
     "may panic",
+    "unable to prove post-condition of closure",
+    "unable to prove assertion",
 )
 RESOURCE = ("Resource limit", "rlimit", "timed out", "timeout")
 
